@@ -212,21 +212,37 @@ func (s *solver) check(extra []*expr, wantModel []*expr) (satResult, model) {
 		sb.WriteString("(assert " + s.termString(e) + ")\n")
 	}
 	sb.WriteString("(check-sat)\n")
+	if len(wantModel) > 0 {
+		sb.WriteString("(get-value (")
+		for _, t := range wantModel {
+			sb.WriteString(s.termString(t))
+			sb.WriteByte(' ')
+		}
+		sb.WriteString("))\n")
+	}
 	s.send(sb.String())
 	lines := s.sync()
 	res := resUnknown
 	bad := false
+	answered := false
+	var rest []string
 	for _, l := range lines {
 		switch {
-		case l == "sat":
-			res = resSat
-		case l == "unsat":
-			res = resUnsat
-		case l == "unknown" || l == "timeout":
-			res = resUnknown
+		case !answered && l == "sat":
+			res, answered = resSat, true
+		case !answered && l == "unsat":
+			res, answered = resUnsat, true
+		case !answered && (l == "unknown" || l == "timeout"):
+			res, answered = resUnknown, true
 		case strings.HasPrefix(l, "(error"):
-			bad = true
-			fmt.Fprintf(os.Stderr, "solver error: %s\n", l)
+			if !answered || res == resSat {
+				bad = true
+				fmt.Fprintf(os.Stderr, "solver error: %s\n", l)
+			}
+		default:
+			if answered {
+				rest = append(rest, l)
+			}
 		}
 	}
 	if bad {
@@ -235,7 +251,7 @@ func (s *solver) check(extra []*expr, wantModel []*expr) (satResult, model) {
 	}
 	var m model
 	if res == resSat && len(wantModel) > 0 {
-		m = s.getValues(wantModel)
+		m = parseValues(strings.Join(rest, " "), wantModel)
 		if m == nil {
 			res = resUnknown
 		}
@@ -258,48 +274,27 @@ func (s *solver) check(extra []*expr, wantModel []*expr) (satResult, model) {
 	return res, m
 }
 
-func (s *solver) getValues(terms []*expr) model {
+func parseValues(txt string, terms []*expr) model {
 	m := model{}
-	// chunk to keep lines manageable
-	for i := 0; i < len(terms); i += 64 {
-		j := i + 64
-		if j > len(terms) {
-			j = len(terms)
-		}
-		var sb strings.Builder
-		sb.WriteString("(get-value (")
-		for _, t := range terms[i:j] {
-			sb.WriteString(s.termString(t))
-			sb.WriteByte(' ')
-		}
-		sb.WriteString("))\n")
-		s.send(sb.String())
-		lines := s.sync()
-		txt := strings.Join(lines, " ")
-		if strings.Contains(txt, "(error") {
-			fmt.Fprintf(os.Stderr, "get-value error: %s\n", txt)
+	sx, _, err := parseSexp(txt, 0)
+	if err != nil || sx.atom != "" || len(sx.list) != len(terms) {
+		fmt.Fprintf(os.Stderr, "get-value parse problem: %v in %.300q\n", err, txt)
+		return nil
+	}
+	for k, pair := range sx.list {
+		if len(pair.list) != 2 {
 			return nil
 		}
-		sx, _, err := parseSexp(txt, 0)
-		if err != nil || sx.atom != "" || len(sx.list) != j-i {
-			fmt.Fprintf(os.Stderr, "get-value parse problem: %v in %q\n", err, txt)
-			return nil
+		t := terms[k]
+		v, err := sexpValue(pair.list[1], t.sort)
+		if err != nil {
+			// a value we cannot represent (e.g. an algebraic number): leave it out of the model
+			continue
 		}
-		for k, pair := range sx.list {
-			if len(pair.list) != 2 {
-				return nil
-			}
-			t := terms[i+k]
-			v, err := sexpValue(pair.list[1], t.sort)
-			if err != nil {
-				fmt.Fprintf(os.Stderr, "get-value: %v\n", err)
-				return nil
-			}
-			if t.op == "var" {
-				m[t.name] = v
-			} else {
-				m["#"+fmt.Sprint(i+k)] = v
-			}
+		if t.op == "var" {
+			m[t.name] = v
+		} else {
+			m["#"+fmt.Sprint(k)] = v
 		}
 	}
 	return m
